@@ -22,6 +22,7 @@ from typing import TYPE_CHECKING, Any
 #
 import asimap.trace
 from asimap.generator import get_msg_size, msg_as_bytes, msg_headers_as_bytes
+from asimap.parse import IMAPClientCommand, IMAPCommand
 from asimap.pop3_parse import BadPOP3Command, parse_pop3_command
 from asimap.trace import trace
 
@@ -490,11 +491,19 @@ class POP3CommandHandler:
             uids_to_delete = [
                 self.snapshot_uids[n - 1] for n in sorted(self.deleted)
             ]
+            # NOTE: Like an IMAP EXPUNGE this has to wait for its turn: the
+            #       mailbox's management task makes sure no IMAP command is
+            #       working on the mailbox while messages are removed (same
+            #       phony command do_move() uses.)
+            #
+            expunge_cmd = IMAPClientCommand("A001 EXPUNGE")
+            expunge_cmd.command = IMAPCommand.EXPUNGE
             try:
-                await self.mbox.expunge(
-                    uid_msg_set=uids_to_delete,
-                    check_deleted=False,
-                )
+                async with expunge_cmd.ready_and_okay(self.mbox):
+                    await self.mbox.expunge(
+                        uid_msg_set=uids_to_delete,
+                        check_deleted=False,
+                    )
             except Exception:
                 logger.exception("Error expunging messages on POP3 QUIT")
                 await self.client.push(
